@@ -138,8 +138,10 @@ def exec_inputs(item):
 
     events, mism = [], []
     n_incomplete = 0
-    for c in item["cases"]:
-        progress({"op": "align_optimal", "inp": c["inp"], "rep": c["rep"]})
+    for k, c in enumerate(item["cases"]):
+        if k < item.get("skip", 0):
+            continue
+        progress({"op": "align_optimal", "inp": c["inp"], "rep": c["rep"], "k": k})
         ev = run_case(c["inp"], MAXNS, tuple(c["rep"]))
         ev["ndp"] = c["ndp"]
         events.append(ev)
@@ -190,7 +192,7 @@ def gen_events(item):
 
     rng = random.Random(item["seed"])
     events = []
-    for _ in range(item["count"]):
+    for k in range(item["count"]):
         inp = _rand_input(rng, item["big"])
         r = rng.random()
         maxns = [rng.choice([1, 2, 3, 5]), 1000] if r < 0.9 else [rng.choice([1, 4])]
@@ -201,7 +203,9 @@ def gen_events(item):
                 maxns = [0]
         rep = REPS[rng.randrange(len(REPS))]
         small = len(inp["s1"]) <= 3 and len(inp["s2"]) <= 3
-        progress({"op": "align_optimal", "inp": inp, "rep": rep, "maxns": maxns})
+        if k < item.get("skip", 0):
+            continue
+        progress({"op": "align_optimal", "inp": inp, "rep": rep, "maxns": maxns, "k": k})
         ev = run_case(inp, maxns, rep, ideal=1 if small else 0)
         # keep events small: an all-ties input can return 1000 alignments
         if len(ev["traces"]) > 120:
@@ -234,8 +238,16 @@ _KEEP = ("s1", "s2", "M", "gap", "mode", "oc", "scores", "traces", "rescore", "c
 FLAGS = ("oc", "score", "ideal", "traces", "count", "distinct", "rescore")
 
 
-def validate(ctx, events, *, stage, selftest=False, workers=8, per_trace=40, timeout=1500):
-    """TLC validates events (specs/C08/Trace.tla). Returns list of (event_index, flags, exp_oc, exp_score)."""
+def validate(ctx, events, *, stage, selftest=False, workers=8, per_trace=40, timeout=1500, chunk=60000):
+    """TLC validates events (specs/C08/Trace.tla), at most `chunk` events per TLC run.
+    Returns list of (event_index, flags, exp_oc, exp_score)."""
+    if len(events) > chunk:
+        out = []
+        for off in range(0, len(events), chunk):
+            o = validate(ctx, events[off:off + chunk], stage=stage, selftest=selftest, workers=workers,
+                         per_trace=per_trace, timeout=timeout, chunk=chunk)
+            out += [(ix + off, *rest) for ix, *rest in o]
+        return out
     from harness.tlabind import tlc as T
     from harness.tlabind.tlaval import parse_value, to_py
 
@@ -318,12 +330,12 @@ def run(ctx):
                        "the model has more than one optimal trace-back, or a returned trace contains a gap, "
                        "or (local) covers only part of the sequences")
     # ---- S1 ----------------------------------------------------------------------------
-    cfgs = [("MC.cfg", 2)] if quick else [("MC_thorough.cfg", 2), ("MC_thorough3.cfg", 3)]
+    cfgs = [("MC.cfg", 2)] if quick else [("MC_thorough2.cfg", 2), ("MC_thorough.cfg", 2), ("MC_thorough3.cfg", 3)]
     cases = []
     for cfg, k in cfgs:
         d = tlc.scratch_dir("c08dump")
         prefix = os.path.join(d, "states")
-        res = ctx.tlc("OptimalAlign", cfg, stage="S1", dump=prefix, workers=12, timeout=3000)
+        res = ctx.tlc("OptimalAlign", cfg, stage="S1", dump=prefix, workers=12, timeout=9000)
         path = prefix + ".dump" if os.path.exists(prefix + ".dump") else prefix
         sts, blocks = parse_dump_fast(path)
         if 2 * len(sts) != res.distinct:
@@ -346,6 +358,8 @@ def run(ctx):
                                   "mode": s["mode"]},
                           "opt": s["opt"], "ndp": s["ndp"], "nopt": s["nopt"]})
     ctx.exhaustive = True
+    # TLC writes the dump in a worker-dependent order: make the order canonical (determinism)
+    cases.sort(key=lambda c: json.dumps(c["inp"], sort_keys=True))
     # vacuity: the bounded domain must contain the interesting situations
     seen = {
         "modes": {c["inp"]["mode"] for c in cases},
@@ -378,7 +392,7 @@ def run(ctx):
             events += r["events"]
             incomplete += r.get("incomplete", 0)
     ctx.log(f"S2: {len(events)} inputs executed ({sum(len(e['calls']) for e in events)} calls)")
-    mms = validate(ctx, events, stage="S2")
+    mms = validate(ctx, events, stage="S2", workers=12)
     for ix, flags, eoc, esc in mms:
         ctx.mismatch(_event_mismatch(events[ix], flags, eoc, esc, "S2"))
     if incomplete:
@@ -415,7 +429,7 @@ def run(ctx):
     ctx.cov["s3_alignments_validated"] = sum(len(e["traces"]) for e in sev)
     ctx.nontrivial += sum(1 for e in sev if _nontrivial(e))
     if not any(e["oc"] == "Rejected" for e in sev) or not any(e["oc"] == "ok" and len(e["s1"]) > 4 for e in sev):
-        raise Vacuity("S3 generated no refusal or no input beyond the exhaustive bounds")
+        vacuity(ctx, "S3 generated no refusal or no input beyond the exhaustive bounds")
     for e in sev[:2]:
         ctx.sample({"s3_event": {k: e[k] for k in _KEEP}})
     # ---- binding self-test -------------------------------------------------------------
@@ -434,7 +448,8 @@ def run(ctx):
             e["traces"][0][0], e["traces"][0][1] = e["traces"][0][1], e["traces"][0][0]   # order broken
         bad.append(e)
     if len(bad) < 4:
-        raise Vacuity("binding self-test: not enough recorded events to corrupt")
+        vacuity(ctx, "binding self-test: not enough recorded events to corrupt")
+        return
     rej = validate(ctx, bad, stage="S3", selftest=True, per_trace=1, workers=2)
     hit = {ix for ix, *_ in rej}
     if len(hit) < len(bad):
@@ -463,10 +478,47 @@ def _nontrivial(e):
     return False
 
 
-def _run_pool(ctx, target, items, stage):
-    from harness.tlabind import helpers
+def _run_pool(ctx, target, items, stage, rounds=8):
+    """Crash-isolated execution that does not lose the rest of an item: when a child dies
+    in call number k of an item (known from the progress record), the crash becomes a mismatch
+    record and the item is resubmitted with skip = k + 1."""
+    from harness.tlabind import pool
 
-    return helpers.run_pool(ctx, target, items, stage=stage, item_timeout=120)
+    out = []
+    todo = [dict(it, skip=it.get("skip", 0)) for it in items]
+    for _ in range(rounds):
+        if not todo:
+            break
+        results = pool.run_isolated(target, todo, item_timeout=300)
+        nxt = []
+        for it, r in zip(todo, results):
+            if r is None:
+                raise RuntimeError(f"{stage}: missing result")
+            if "driver_error" in r:
+                raise RuntimeError(f"{stage}: driver error {r['driver_error']}\n{r.get('tb', '')}")
+            if "crash" in r:
+                prog = r.get("progress") or {}
+                ctx.mismatch({"stage": stage, "kind": "crash", "signal": r["crash"], "progress": prog})
+                if isinstance(prog.get("k"), int):
+                    nxt.append(dict(it, skip=prog["k"] + 1))
+                continue
+            for mm in r.get("mismatch", ()):
+                mm.setdefault("stage", stage)
+                ctx.mismatch(mm)
+            out.append(r)
+        todo = nxt
+    return out
+
+
+def vacuity(ctx, msg):
+    """A missing situation is a machinery failure - unless violations were found, which are the
+    likely cause (crashed children lose calls) and must be reported first."""
+    from harness.tlabind.core import Vacuity
+
+    if ctx.violations:
+        ctx.note("vacuity guard not evaluated because violations were found: " + msg)
+    else:
+        raise Vacuity(msg)
 
 
 # --------------------------------------------------------------------------- replay
